@@ -127,4 +127,75 @@ theorem nodeAt?_modifyAt [GoZero V] (f : MNode V → MNode V) (hf : ∀ m, (f m)
       · have hst : ¬ s = t := fun e => hts e.symm
         simp [modifyAt, nodeAt?_cons, AMap.find?_set, hst, hts]
 
+/-- eta for the (recursive) structure -/
+@[simp] theorem eta (n : MNode V) : (⟨n.Segment, n.Value, n.Children, n.SortedKeys⟩ : MNode V) = n := by cases n; rfl
+
+/-! ## height (the fuel of `postOrder`) -/
+
+theorem height_mk (seg : String) (v : V) (cs : List (String × MNode V)) (so : List String) :
+    height (⟨seg, v, cs, so⟩ : MNode V) = heightL cs + 1 := by
+  rw [height]
+
+theorem heightL_cons (k : String) (c : MNode V) (rest : List (String × MNode V)) :
+    heightL ((k, c) :: rest) = max (height c) (heightL rest) := by
+  rw [heightL]
+
+theorem height_le_heightL {cs : List (String × MNode V)} {k : String} {c : MNode V} (h : (k, c) ∈ cs) : height c ≤ heightL cs := by
+  induction cs with
+  | nil => simp at h
+  | cons e rest ih =>
+    obtain ⟨a, b⟩ := e
+    rw [heightL_cons]
+    rcases List.mem_cons.1 h with h | h
+    · cases h; exact Nat.le_max_left _ _
+    · exact Nat.le_trans (ih h) (Nat.le_max_right _ _)
+
+theorem mem_of_find?' {cs : List (String × MNode V)} {k : String} {c : MNode V} (h : AMap.find? cs k = some c) : (k, c) ∈ cs := by
+  induction cs with
+  | nil => simp [AMap.find?] at h
+  | cons e rest ih =>
+    obtain ⟨a, b⟩ := e
+    by_cases hak : a = k
+    · simp only [AMap.find?, hak, if_true, Option.some.injEq] at h
+      subst hak; subst h; simp
+    · simp only [AMap.find?, hak, if_false] at h
+      exact List.mem_cons_of_mem _ (ih h)
+
+theorem height_child_lt {n : MNode V} {s : String} {c : MNode V} (h : AMap.find? n.Children s = some c) : height c < height n := by
+  obtain ⟨seg, v, cs, so⟩ := n
+  rw [height_mk]
+  exact Nat.lt_succ_of_le (height_le_heightL (mem_of_find?' h))
+
+theorem set_self {κ ν : Type} [DecidableEq κ] (m : AMap κ ν) (k : κ) (v : ν) (h : AMap.find? m k = some v) : AMap.set m k v = m := by
+  induction m with
+  | nil => simp [AMap.find?] at h
+  | cons e rest ih =>
+    obtain ⟨a, b⟩ := e
+    by_cases hak : a = k
+    · simp only [AMap.find?, hak, if_true, Option.some.injEq] at h
+      subst hak; subst h; simp [AMap.set]
+    · simp only [AMap.find?, hak, if_false] at h
+      simp [AMap.set, hak, ih h]
+
+/-- one child of the traversal: skipped when the key is not (or no longer) a child -/
+def childStep {σ : Type} (f : List String → σ → MNode V → Outcome (σ × MNode V)) (ord : List String → List String)
+    (fuel : Nat) (path : List String) (st : σ × List (String × MNode V)) (key : String) : Outcome (σ × List (String × MNode V)) :=
+  match AMap.find? st.2 key with
+  | none => .ok st
+  | some ch => (postOrderF f ord fuel (path ++ [key]) st.1 ch).bind fun r => .ok (r.1, AMap.set st.2 key r.2)
+
+theorem childStep_none {σ : Type} (f : List String → σ → MNode V → Outcome (σ × MNode V)) (ord : List String → List String)
+    (fuel : Nat) (path : List String) (st : σ × List (String × MNode V)) (key : String) (h : AMap.find? st.2 key = none) :
+    childStep f ord fuel path st key = .ok st := by simp [childStep, h]
+
+theorem childStep_some {σ : Type} (f : List String → σ → MNode V → Outcome (σ × MNode V)) (ord : List String → List String)
+    (fuel : Nat) (path : List String) (st : σ × List (String × MNode V)) (key : String) (ch : MNode V) (h : AMap.find? st.2 key = some ch) :
+    childStep f ord fuel path st key =
+      (postOrderF f ord fuel (path ++ [key]) st.1 ch).bind fun r => .ok (r.1, AMap.set st.2 key r.2) := by simp [childStep, h]
+
+theorem postOrderF_succ {σ : Type} (f : List String → σ → MNode V → Outcome (σ × MNode V)) (ord : List String → List String)
+    (fuel : Nat) (path : List String) (s : σ) (n : MNode V) :
+    postOrderF f ord (fuel + 1) path s n =
+      (foldlE (childStep f ord fuel path) (s, n.Children) (ord path)).bind fun st => f path st.1 { n with Children := st.2 } := rfl
+
 end Knut.GoSem.MNode
